@@ -17,7 +17,7 @@ COMMON_ASSUME = [
 ]
 
 # ---------------------------------------------------------------- C16
-def rand_c16(seed, tier):
+def rand_c16(seed, tier, cases=None):
     rng = random.Random(seed * 7919 + 16)
     n = 300 if tier == "quick" else 3000
     out = []
@@ -49,4 +49,118 @@ prop(dict(
          "distinct = distinct case descriptors",
     exhaustive=False,
     assumptions=COMMON_ASSUME + ["buffers of the 'big' classes are judged on fragment lengths plus per-fragment slice-equality facts computed by the harness"],
+))
+
+
+# ---------------------------------------------------------------- RTP core (C01, C04, C20)
+RTP_THOROUGH = {"PayLens": "{0, 1, 2, 3, 4, 50}", "PadSizes": "{0, 1, 2, 4, 255}", "CsrcCounts": "{0, 1, 2, 15}", "Rich": "TRUE"}
+
+
+def rtp_consts(fam, tier):
+    d = {"Fam": '"%s"' % fam}
+    if tier == "thorough":
+        d.update(RTP_THOROUGH)
+    return d
+
+
+def _rand_packet(rng):
+    """A random well-formed packet value (the C01 domain), as a case 'p' record."""
+    def word():
+        return [rng.randint(0, 255) for _ in range(4)]
+    lay = rng.choice(["none", "one", "two", "legacy"])
+    x, profile, exts = lay != "none", 0, []
+    if lay == "one":
+        profile = 0xBEDE
+        ids = rng.sample(range(1, 15), rng.randint(0, 6))
+        exts = [dict(id=i, val=[rng.randint(0, 255) for _ in range(rng.randint(1, 16))]) for i in ids]
+    elif lay == "two":
+        profile = 0x1000
+        ids = rng.sample(range(1, 256), rng.randint(0, 5))
+        exts = [dict(id=i, val=[rng.randint(0, 255) for _ in range(rng.choice([0, 1, 2, 3, 4, 17, 40, 255]))]) for i in ids]
+    elif lay == "legacy":
+        profile = rng.choice([0, 1, 0x1234, 0xBEDF, 0x0FFF, 0x1010, 0xFFFF, rng.randint(0, 65535)])
+        if profile in (0xBEDE, 0x1000):
+            profile = 0x4321
+        exts = [dict(id=0, val=[rng.randint(0, 255) for _ in range(4 * rng.randint(0, 6))])]
+    padsize = rng.choice([0, 0, 0, 1, 2, 3, 4, 7, 200, 255])
+    return dict(ver=rng.randint(0, 3), pad=padsize > 0, x=x, m=rng.random() < 0.5, pt=rng.randint(0, 127),
+                seq=rng.randint(0, 65535), ts=word(), ssrc=word(), csrc=[word() for _ in range(rng.choice([0, 0, 1, 2, 3, 15]))],
+                profile=profile, exts=exts, payload=[rng.randint(0, 255) for _ in range(rng.choice([0, 0, 1, 2, 3, 4, 5, 33, 120]))],
+                padsize=padsize)
+
+
+def _ptags(p):
+    body = 0
+    for e in p["exts"]:
+        body += len(e["val"]) + (1 if p["profile"] == 0xBEDE else 2 if p["profile"] == 0x1000 else 0)
+    lay = "noext" if not p["x"] else "onebyte" if p["profile"] == 0xBEDE else "twobyte" if p["profile"] == 0x1000 else "legacy"
+    return dict(layout=lay, ext_flush=p["x"] and body % 4 == 0, nexts=len(p["exts"]), paylen=len(p["payload"]),
+                padsize=p["padsize"], ncsrc=len(p["csrc"]), ext_empty_block=p["x"] and body == 0)
+
+
+def rand_c01(seed, tier, cases=None):
+    rng = random.Random(seed * 7919 + 1)
+    out = []
+    for _ in range(800 if tier == "quick" else 20000):
+        p = _rand_packet(rng)
+        out.append(dict(fam="C01", p=p, tags=_ptags(p), dsts=[], sites=[], **{"class": "rand_" + _ptags(p)["layout"]}))
+    return out
+
+
+def rand_c04(seed, tier, cases=None):
+    rng = random.Random(seed * 7919 + 4)
+    out = []
+    for _ in range(300 if tier == "quick" else 6000):
+        p = _rand_packet(rng)
+        dsts = [[rng.randint(0, 1), rng.randint(0, 400), rng.randint(0, 2)] for _ in range(6)]
+        out.append(dict(fam="C04", p=p, tags=_ptags(p), dsts=dsts, sites=[], **{"class": "rand_" + _ptags(p)["layout"]}))
+    return out
+
+
+RTP_ASSUME = COMMON_ASSUME + ["extension (id, value) lists are read from Header.Extensions by reflection (fallback: GetExtensionIDs/GetExtension)"]
+
+prop(dict(
+    id="C01", fam="C01",
+    mc=[("RtpMC.tla", "RtpMC.cfg", {"thorough": dict(RTP_THOROUGH, KnobSet='"some"')})],
+    gen=[("RtpGen.tla", "RtpGen.cfg", {"quick": rtp_consts("C01", "quick"), "thorough": rtp_consts("C01", "thorough")})],
+    rand=rand_c01,
+    trace=("RtpTrace.tla", "RtpTrace.cfg"),
+    shards={"quick": 1, "thorough": 8},
+    workers=16,
+    nontrivial=lambda c: c["p"]["x"] or c["p"]["pad"] or len(c["p"]["csrc"]) > 0,
+    mandatory=["noext", "onebyte_flush_nopayload", "twobyte_flush_nopayload", "legacy_flush_nopayload", "onebyte_pad", "twobyte", "legacy_flush"],
+    rule="TLC enumerates the full product extension layout x payload length x padding size x CSRC count of RtpDom (scalars rotate through a "
+         "covering row); seeded random well-formed packets are added; non-trivial = has an extension block, padding or CSRCs; distinct = distinct packet values",
+    assumptions=RTP_ASSUME,
+))
+
+prop(dict(
+    id="C04", fam="C04",
+    mc=[("RtpMC.tla", "RtpMC.cfg", {"quick": {"KnobSet": '"canon"'}, "thorough": dict(RTP_THOROUGH, KnobSet='"canon"')})],
+    gen=[("RtpGen.tla", "RtpGen.cfg", {"quick": rtp_consts("C04", "quick"), "thorough": rtp_consts("C04", "thorough")})],
+    rand=rand_c04,
+    trace=("RtpTrace.tla", "RtpTrace.cfg"),
+    shards={"quick": 4, "thorough": 12},
+    workers=16,
+    nontrivial=lambda c: True,
+    mandatory=["noext", "onebyte_pad", "twobyte_pad", "legacy_flush_pad", "onebyte_flush_nopayload"],
+    rule="every packet of RtpDom x destination lengths {0,1,size-1,size,size+1,size+7,header size +-1, midpoint} x prior fills {0xFF, pattern} "
+         "(plus zero fill at exact size), for Packet.MarshalTo and Header.MarshalTo; evaluations counts packets, each with 20-30 MarshalTo calls; "
+         "distinct = distinct (packet, destination list)",
+    assumptions=RTP_ASSUME,
+))
+
+prop(dict(
+    id="C20", fam="C20",
+    mc=[("RtpMC.tla", "RtpMC.cfg", {"quick": {"KnobSet": '"canon"'}, "thorough": dict(RTP_THOROUGH, KnobSet='"canon"')})],
+    gen=[("RtpGen.tla", "RtpGen.cfg", {"quick": rtp_consts("C20", "quick"), "thorough": rtp_consts("C20", "thorough")})],
+    trace=("RtpTrace.tla", "RtpTrace.cfg"),
+    shards={"quick": 4, "thorough": 12},
+    workers=16,
+    nontrivial=lambda c: len(c["sites"]) > 2,
+    mandatory=["noext", "onebyte_pad", "twobyte_pad", "legacy_flush_pad"],
+    rule="every packet of RtpDom x every mutation site TLC derives for it (first/last payload byte, first/last CSRC, last byte of each extension value, "
+         "SetExtension of a new and of an existing id, DelExtension of first/last id, padding size) x side (original, clone), for Packet.Clone and Header.Clone; "
+         "non-trivial = more than the padding-size site; distinct = distinct (packet, site list)",
+    assumptions=RTP_ASSUME,
 ))
